@@ -36,4 +36,10 @@ for p in props:
     else:
         m["not_applicable"].append({"property_id": pid, "reason": "check under construction in this build phase (model and theorems planned in DESIGN.md section 4); not claimed until its check exists"})
 json.dump(m, open(V / "MANIFEST.json", "w"), indent=1)
+# library root: everything under CKT/Model, CKT/Proofs, CKT/Props, CKT/Sem, CKT/Generated
+mods = []
+for sub in ("Model", "Generated", "Sem", "Proofs", "Props"):
+    for f in sorted((V / "lean" / "CKT" / sub).glob("*.lean")):
+        mods.append(f"CKT.{sub}.{f.stem}")
+(V / "lean" / "CKT.lean").write_text("".join(f"import {x}\n" for x in mods))
 print("checks:", [c["property_id"] for c in m["checks"]])
